@@ -34,6 +34,8 @@ def cat(tier):
 
 
 def dialects(entry):
+    if entry.get('only'):
+        return list(entry['only'])
     return ['smiV1', 'smiV1Relaxed'] if entry['v1'] else ['smiV2', 'smiV1', 'smiV1Relaxed']
 
 
